@@ -33,7 +33,7 @@ TECH = {p: _B for p in ("C01", "C02", "C03", "C05", "C07", "C09", "C10", "C11", 
 for _p in ("C01", "C07"):
     TECH[_p] = _B + "; plus a symbolic one-step refinement check of the slot-level steps with Apalache (spec/MapRef.tla)"
 for _p in ("C03", "C05"):
-    TECH[_p] = _B + "; plus the representation invariant shown inductive with Apalache (capacities up to 32) and proved with TLAPS for unbounded capacity (spec/MapInd.tla, spec/MapProof.tla)"
+    TECH[_p] = _B + "; plus the representation invariant shown inductive with Apalache (capacities up to 32) and proved with TLAPS for unbounded capacity together with the refinement of the ideal key set by every slot-level step (spec/MapInd.tla, spec/MapProof.tla)"
 for _p in ("C13", "C18"):
     TECH[_p] = _B + "; plus a symbolic check of the disjoint-borrow stack algorithm with Apalache (spec/MapDisj.tla)"
 for _p in ("C06", "C08", "C14", "C16"):
